@@ -1081,6 +1081,60 @@ type hop struct {
 	fkind  errKind
 	cut    int // write fault on the answer: 0 none, 1 early (cutN bytes of the body pass), 2 late (cutN bytes pass behind the first form tag)
 	cutN   int // not a model dimension
+	// callback: where the id parameter travels (see cbIDs). 0 GET ?id=k (k = -1: no id parameter at all); 1 body id=k;
+	// 2 POST with ?id=k and an empty body; 3 body id=k, query id=k2; 4 GET ?id=k&id=k2; 5 body id=k&id=k2.
+	// In 1-5 an index of -1 is an EMPTY value (id=), an index beyond the created requests an id nobody has.
+	place  int
+	k2     int
+	method string // placements with a body: "" = POST, or PUT / PATCH (ParseForm reads their bodies too); not a model dimension
+}
+
+var placeNames = []string{"query", "body", "postquery", "body+query", "query2", "body2"}
+
+// cbIDs: the values of the callback's id parameter in the order of Request.Form (form body first, then URL query).
+func (h hop) cbIDs() (body, query []int) {
+	switch h.place {
+	case 1:
+		body = []int{h.k}
+	case 2:
+		query = []int{h.k}
+	case 3:
+		body, query = []int{h.k}, []int{h.k2}
+	case 4:
+		query = []int{h.k, h.k2}
+	case 5:
+		body = []int{h.k, h.k2}
+	default:
+		if h.k >= 0 {
+			query = []int{h.k}
+		}
+	}
+	return
+}
+
+func idsTerm(ks []int) string {
+	out := make([]string, len(ks))
+	for i, k := range ks {
+		if k < 0 {
+			out[i] = emit.None
+		} else {
+			out[i] = emit.Some(emit.Nat(k))
+		}
+	}
+	return emit.List(out)
+}
+
+// genPlace: a callback whose id does not (only) travel in the query of a GET: the login UI finishes with a form
+// POST, or the request names a second request - another flow's, the same, an unknown or an empty one - next to k.
+func genPlace(r drv.Rand, h *hop, nids int) {
+	h.place = 1 + r.IntN(5)
+	h.k2 = drv.Pick(r, []int{-1, 7, h.k, r.IntN(nids + 1), r.IntN(nids + 1), r.IntN(nids + 1)})
+	if r.Chance(1, 8) { // the pair the other way round: the unknown / empty / other value first
+		h.k, h.k2 = h.k2, h.k
+	}
+	if r.Chance(1, 6) {
+		h.method = drv.Pick(r, []string{http.MethodPut, http.MethodPatch})
+	}
 }
 
 var cutNames = []string{"W_None", "W_Early", "W_Late"}
@@ -1154,10 +1208,8 @@ func (h hop) term() string {
 	case 1:
 		return emit.Ctor("Login", emit.Nat(h.k))
 	default:
-		k := emit.None
-		if h.k >= 0 {
-			k = emit.Some(emit.Nat(h.k))
-		}
+		body, query := h.cbIDs()
+		k := emit.Ctor("Build_cbids", idsTerm(body), idsTerm(query))
 		ft := "CF_None"
 		switch h.fault {
 		case 1:
@@ -1393,21 +1445,54 @@ func (s *session) step(h hop) {
 		s.outs = append(s.outs, "ONone")
 		s.human = append(s.human, map[string]any{"op": "login", "k": h.k})
 	default:
-		q := url.Values{}
-		if h.k >= 0 {
-			if h.k < len(s.ids) {
-				q.Set("id", s.ids[h.k])
-			} else {
-				q.Set("id", "nope")
+		bodyIDs, queryIDs := h.cbIDs()
+		vals := func(ks []int) url.Values {
+			v := url.Values{}
+			for _, k := range ks {
+				switch {
+				case k < 0:
+					v.Add("id", "")
+				case k < len(s.ids):
+					v.Add("id", s.ids[k])
+				default:
+					v.Add("id", "nope")
+				}
 			}
+			return v
 		}
+		q, body := vals(queryIDs), vals(bodyIDs)
 		if m := []string{"", "AuthRequestByID", "GetClientByClientID", "SaveAuthCode"}[h.fault]; m != "" {
 			s.fail.Errs[m] = h.fkind.mk()
 		}
-		resp := s.get(h, "/authorize/callback", q)
+		var resp *opfix.Resp
+		method := http.MethodGet
+		if h.place == 0 {
+			resp = s.get(h, "/authorize/callback", q)
+		} else {
+			target := "https://" + hostOf(h.q) + "/authorize/callback"
+			if len(q) > 0 {
+				target += "?" + q.Encode()
+			}
+			var req *http.Request
+			if h.place == 4 {
+				req = httptest.NewRequest(method, target, nil)
+			} else {
+				method = http.MethodPost
+				if h.method != "" {
+					method = h.method
+				}
+				req = httptest.NewRequest(method, target, strings.NewReader(body.Encode()))
+				req.Header.Set("Content-Type", "application/x-www-form-urlencoded")
+			}
+			if h.cut == 0 {
+				resp = opfix.Do(s.f.Handlers[h.router], req)
+			} else {
+				resp = doCut(s.f.Handlers[h.router], req, h.cut == 2, h.cutN)
+			}
+		}
 		clear(s.fail.Errs)
 		s.outs = append(s.outs, observe(resp, "", "", h.cut))
-		s.human = append(s.human, map[string]any{"op": "callback", "router": h.router.String(), "k": h.k, "fault": h.fault, "write_fault": cutNames[h.cut], "write_fault_bytes": h.cutN, "status": resp.Status, "location": resp.Header.Get("Location"), "body": trunc(resp.Body)})
+		s.human = append(s.human, map[string]any{"op": "callback", "router": h.router.String(), "k": h.k, "method": method, "id_in_body": body["id"], "id_in_query": q["id"], "fault": h.fault, "write_fault": cutNames[h.cut], "write_fault_bytes": h.cutN, "status": resp.Status, "location": resp.Header.Get("Location"), "body": trunc(resp.Body)})
 	}
 }
 
@@ -1602,9 +1687,16 @@ func genHistory(r drv.Rand, w *emit.Writer) {
 		if r.Chance(1, 10) {
 			cb.k = drv.Pick(r, []int{-1, 7})
 		}
+		if r.Chance(1, 3) {
+			genPlace(r, &cb, len(s.ids))
+		}
 		do(cb)
 		if r.Chance(1, 4) { // replayed callback, maybe on the other router
-			do(hop{kind: 2, router: pickRouter(r), k: r.IntN(len(s.ids) + 1)})
+			cb2 := hop{kind: 2, router: pickRouter(r), k: r.IntN(len(s.ids) + 1)}
+			if r.Chance(1, 3) {
+				genPlace(r, &cb2, len(s.ids))
+			}
+			do(cb2)
 		}
 	}
 	tags := []string{"kind=history", fmt.Sprintf("clients=%d", nc), fmt.Sprintf("reqobj=%v", reqobj), fmt.Sprintf("dynissuer=%v", dyn), "notfound=" + nfTag, wrapTag}
@@ -1632,7 +1724,22 @@ func genHistory(r drv.Rand, w *emit.Writer) {
 			tags = append(tags, t)
 		}
 	}
+	tags = append(tags, placeTags(ops)...)
 	s.emit(w, tags)
+}
+
+// placeTags: the callback id placements of a history other than the plain GET query.
+func placeTags(ops []hop) []string {
+	seen := map[string]bool{}
+	var tags []string
+	for _, o := range ops {
+		if o.kind == 2 && o.place != 0 && !seen[placeNames[o.place]] {
+			seen[placeNames[o.place]] = true
+			tags = append(tags, "cbid="+placeNames[o.place])
+		}
+	}
+	sort.Strings(tags)
+	return tags
 }
 
 // genDups: the request repeats parameters. redirect_uri twice or three times - an unregistered value
@@ -1868,10 +1975,16 @@ func genSequence(r drv.Rand, w *emit.Writer) {
 		if r.Chance(1, 8) {
 			h.fault, h.fkind = 1+r.IntN(3), genErrKind(r)
 		}
+		if r.Chance(1, 3) { // the id in a form body, and / or the id of a neighbouring flow next to it
+			genPlace(r, &h, n)
+		}
 		do(h)
 		if r.Chance(1, 3) { // replay (a code-flow request stays usable), maybe of an undelivered answer
 			h2 := hop{kind: 2, router: pickRouter(r), k: order[r.IntN(i+1)], q: areq{host: host()}}
 			cutOf(&h2, 1, 5)
+			if r.Chance(1, 3) {
+				genPlace(r, &h2, n)
+			}
 			do(h2)
 		}
 	}
@@ -1887,6 +2000,7 @@ func genSequence(r drv.Rand, w *emit.Writer) {
 	if dupTag {
 		tags = append(tags, "dup=1")
 	}
+	tags = append(tags, placeTags(ops)...)
 	seen := map[string]bool{}
 	for _, o := range ops {
 		t := "router=" + o.router.String()
@@ -2053,6 +2167,37 @@ func directedRO(w *emit.Writer) {
 	}
 }
 
+// directedCallbackID: where the id parameter of the callback travels. Two clients, three requests (the third one is
+// never logged in), both routers, every response type / mode: the id in a form body (POST, PUT), in the query of a POST,
+// in both with different requests named (body value first in Request.Form), repeated, with an empty or unknown first value.
+func directedCallbackID(w *emit.Writer) {
+	a := &refstore.Client{ID: "c0", App: op.ApplicationTypeWeb, RespTypes: allRT, Redirects: []string{"https://app.example.com/cb?x=1"}, ATType: op.AccessTokenTypeBearer}
+	b := &refstore.Client{ID: "c1", App: op.ApplicationTypeNative, RespTypes: allRT, Redirects: []string{"http://127.0.0.1/cb", "myapp://callback"}, ATType: op.AccessTokenTypeBearer,
+		LoginPrefix: "https://login.example.com/l?id="}
+	for _, router := range []opfix.Router{opfix.Provider, opfix.Legacy} {
+		for _, mode := range []string{"", "fragment", "form_post"} {
+			for _, rt := range []string{"code", "id_token token"} {
+				ops := []hop{
+					{kind: 0, router: router, q: areq{client: "c0", uri: "https://app.example.com/cb?x=1", rt: rt, mode: mode}},
+					{kind: 0, router: router, q: areq{client: "c1", uri: "http://[::1]:7777/cb", rt: rt, mode: mode}},
+					{kind: 0, router: router, q: areq{client: "c1", uri: "myapp://callback", rt: rt, mode: mode}},
+					{kind: 1, k: 0}, {kind: 1, k: 1},
+					{kind: 2, router: router, place: 3, k: 2, k2: 0},  // body: the request without login, query: a finished one
+					{kind: 2, router: router, place: 3, k: 7, k2: 0},  // body: unknown id
+					{kind: 2, router: router, place: 5, k: -1, k2: 0}, // body: empty value, then a finished one
+					{kind: 2, router: router, place: 1, k: 0},         // the login UI finishes with a form POST
+					{kind: 2, router: router, place: 3, k: 1, k2: 0},  // body and query name different finished requests
+					{kind: 2, router: router, place: 4, k: 0, k2: 1},  // repeated in the query
+					{kind: 2, router: router, place: 2, k: 1},         // POST, id in the query
+					{kind: 2, router: router, place: 1, k: 1, method: http.MethodPut},
+					{kind: 2, router: router, place: 1, k: -1},
+					{kind: 2, router: router, k: 0}}
+				runHistory(w, false, []*refstore.Client{a, b}, ops, append([]string{"kind=history", "directed=callbackid", "router=" + router.String(), "mode=" + mode}, placeTags(ops)...))
+			}
+		}
+	}
+}
+
 func main() {
 	cfg := drv.Parse()
 	r := drv.NewRand(cfg.Seed)
@@ -2067,6 +2212,7 @@ func main() {
 	directedDup(w)
 	directedPrivateUse(r, w)
 	directedWrap(r, w)
+	directedCallbackID(w)
 	nv := cfg.Count(900, 14000)
 	nh := cfg.Count(700, 10000)
 	ns := cfg.Count(200, 3000)
@@ -2088,7 +2234,7 @@ func main() {
 		}
 	}
 	err := w.Close(emit.Meta{Property: "C03", Tier: cfg.Tier, Seed: cfg.Seed, Extra: map[string]any{"loopback_classifier_disagreements": loopDisagree},
-		Rule: "loopback ground truth: every URI of a case is classified by the harness itself (http/https and host exactly localhost or an IP literal in 127.0.0.0/8 or ::1) next to the library's HTTPLoopbackOrLocalhost; the predicate uses the former, the model the latter; requested URIs include registered loopback URIs under ~50 near-miss hosts (prefix/suffix/label/case/trailing dot/number forms/neighbouring addresses) with and without port and userinfo. validate: random registration (app type x dev x response types x 1-3 registered URIs x optional globs incl. malformed) x requested URI = registered one, mutated (suffix/prefix/userinfo/host case/port/loopback swaps/scheme/custom/glob metacharacters/foreign/empty/unparseable) or glob instance, x response_type; history: 1-2 flows Authorize->Login->Callback over HTTP on random routers with 0-1 error-provoking parameter (before or after URI validation), really signed request objects (client key registered in the storage; redirect_uri / response_type / response_mode / prompt / scope inside equal to or different from the plain parameters; wrong key, kid, iss, aud, client_id), storage faults returning plain / typed / redirect-disabled errors, dynamic issuer with several hosts, skipped login, replayed/unknown callbacks, all response modes; sequence: 2-4 clients on one provider instance, 2-5 flows of neighbouring different clients mostly on the success path in one response mode per session (or mixed), all authorizations, then logins, then the callbacks in random order with replays, one or more answers written under a write fault (ResponseWriter.Write failing after 0-100 bytes, or behind the first form tag), each answer judged by the Location / FIRST form action the user agent would follow; plus directed F14, happy-flow and write-fault cases. non-trivial = model path class != 0 (validate: non-empty URI; history: at least one answer that is not an error page); distinct = distinct Coq input terms",
+		Rule: "loopback ground truth: every URI of a case is classified by the harness itself (http/https and host exactly localhost or an IP literal in 127.0.0.0/8 or ::1) next to the library's HTTPLoopbackOrLocalhost; the predicate uses the former, the model the latter; requested URIs include registered loopback URIs under ~50 near-miss hosts (prefix/suffix/label/case/trailing dot/number forms/neighbouring addresses) with and without port and userinfo. validate: random registration (app type x dev x response types x 1-3 registered URIs x optional globs incl. malformed) x requested URI = registered one, mutated (suffix/prefix/userinfo/host case/port/loopback swaps/scheme/custom/glob metacharacters/foreign/empty/unparseable) or glob instance, x response_type; history: 1-2 flows Authorize->Login->Callback over HTTP on random routers with 0-1 error-provoking parameter (before or after URI validation), really signed request objects (client key registered in the storage; redirect_uri / response_type / response_mode / prompt / scope inside equal to or different from the plain parameters; wrong key, kid, iss, aud, client_id), storage faults returning plain / typed / redirect-disabled errors, dynamic issuer with several hosts, skipped login, replayed/unknown callbacks, the callback's id parameter in the URL query, in a form body (POST/PUT/PATCH), in both naming different requests, repeated, with an empty or unknown first value (one callback in three), all response modes; sequence: 2-4 clients on one provider instance, 2-5 flows of neighbouring different clients mostly on the success path in one response mode per session (or mixed), all authorizations, then logins, then the callbacks in random order with replays, one or more answers written under a write fault (ResponseWriter.Write failing after 0-100 bytes, or behind the first form tag), each answer judged by the Location / FIRST form action the user agent would follow; plus directed F14, happy-flow and write-fault cases. non-trivial = model path class != 0 (validate: non-empty URI; history: at least one answer that is not an error page); distinct = distinct Coq input terms",
 	})
 	if err != nil {
 		fmt.Fprintln(os.Stderr, err)
